@@ -280,7 +280,103 @@ def analyse(mod, run, label):
                 elif v["k"] == "int" and "." not in fld:
                     if not empty_input_only(fn, fi, i, cparam):
                         run.observe("%s stores constant %s into %s.%s (not one of the kinds the property names)" % (fn.name, v["v"], t, fld))
+    if label != "control": covered["M11"] = ["varintPFORComputeThreshold"] * m11_exception_count(mod, run, w)
     return nwriters, covered, eng
+
+
+def m11_exception_count(mod, run, w):
+    """M11: meta->exceptionCount of the patched codec is a count of the elements above the threshold value.
+    varintPFOREncode allocates exceptionCount records and fills one per element with `value > thresholdValue`; it then writes all
+    exceptionCount of them.  The two only agree when the analysis counted with that very test over every element - a figure derived from
+    positions in the sorted copy differs as soon as values tie with the percentile value (records that were never filled get written)."""
+    from .c06 import field_of as named_field
+    pf = mod.fn("varintPFORComputeThreshold")
+    if pf is None or not pf.blocks: raise AnalysisBroken("anchor function vanished: varintPFORComputeThreshold")
+    # where the field is stored: the function itself, a core helper it calls, or a fill helper handed the value
+    cands = []          # (function, stored operand)
+    seen = {pf.name}; work = [pf]
+    while work:
+        g = work.pop()
+        for i in g.insts():
+            if i.op == "store" and named_field(g, mod, i.ops[1]) == "exceptionCount" and i.ops[0]["k"] != "int": cands.append((g, i.ops[0], i))
+        for c in g.calls():
+            h = mod.fn(c.get("callee") or "")
+            if h is None or not h.internal or not h.blocks: continue
+            for j in h.insts():
+                if j.op == "store" and named_field(h, mod, j.ops[1]) == "exceptionCount":
+                    hv = strip_casts(h, j.ops[0])
+                    if hv["k"] == "arg" and hv["v"] < c["nargs"] and c.ops[hv["v"]]["k"] != "int": cands.append((g, c.ops[hv["v"]], c))
+            if h.name not in seen: seen.add(h.name); work.append(h)
+    cands = [(g, v, st) for (g, v, st) in cands if strip_casts(g, v)["k"] != "arg"]        # (an argument handed on: judged where it was computed)
+    if not cands: raise AnalysisBroken("M11: no computed value is stored into exceptionCount under varintPFORComputeThreshold")
+    n = 0
+    cands2 = []
+    for g, v, st in cands:
+        # counted by a file-local helper (`countAbove(values, count, thresholdValue)`): judged on what that helper returns
+        sv = strip_casts(g, v); vk0 = g.param_index("values")
+        if sv["k"] == "inst" and g.imap[sv["v"]].op == "call":
+            cl = g.imap[sv["v"]]; h = mod.fn(cl.get("callee") or "")
+            if h is not None and h.internal and h.blocks:
+                fig = w.fi(g).prepare()
+                hk = next((k_ for k_ in range(cl["nargs"]) if cl.ops[k_]["t"].endswith("*") and fig.ptr(cl.ops[k_])[0] == ("arg", vk0)), None)
+                rets = [r.ops[0] for r in h.rets() if r.ops]
+                if hk is not None and len(rets) == 1: cands2.append((h, rets[0], st, hk)); continue
+        cands2.append((g, v, st, vk0))
+    for g, v, st, vk in cands2:
+        n += 1
+        loops = g.loops(); v = strip_casts(g, v)
+        # the value after the loop is the header phi of a counting loop (possibly through exit merges)
+        hp = None; seenv = set(); stack = [v]
+        while stack:
+            o = strip_casts(g, stack.pop())
+            if o["k"] != "inst" or o["v"] in seenv: continue
+            seenv.add(o["v"]); x = g.imap[o["v"]]
+            if x.op == "phi" and x.block.id in loops: hp = x; break
+            if x.op == "phi": stack += [c_["v"] for c_ in x["incoming"]]
+        why = None
+        if hp is None: why = "it is computed arithmetically (%s), not counted" % g.imap[v["v"]].op if v["k"] == "inst" else "it is not counted"
+        else:
+            body = loops[hp.block.id]
+            ins = [c_ for c_ in hp["incoming"] if c_["b"] not in body]; backs = [c_ for c_ in hp["incoming"] if c_["b"] in body]
+            if not (len(ins) == 1 and ins[0]["v"]["k"] == "int" and int(ins[0]["v"]["v"]) == 0): why = "the count does not start from 0"
+            else:
+                # every increment sits on the true side of `element > T` with the element loaded from the input array
+                incs = []; stack = [c_["v"] for c_ in backs]; seen2 = set()
+                while stack:
+                    o = strip_casts(g, stack.pop())
+                    if o["k"] != "inst" or o["v"] in seen2 or o["v"] == hp.id: continue
+                    seen2.add(o["v"]); x = g.imap[o["v"]]
+                    if x.op == "phi": stack += [c_["v"] for c_ in x["incoming"]]
+                    elif x.op == "select": incs.append(x)
+                    elif x.op == "add": incs.append(x)
+                    else: why = "the count is updated by %s" % x.op
+                fi = w.fi(g).prepare(); g.dom()
+                def elem_above(ci, truth_needed=True):
+                    if ci.op != "icmp": return False
+                    a, b = strip_casts(g, ci.ops[0]), strip_casts(g, ci.ops[1]); p = ci["pred"]
+                    if p in ("ult", "slt"): a, b = b, a
+                    elif p not in ("ugt", "sgt"): return False
+                    if a["k"] != "inst" or g.imap[a["v"]].op != "load": return False
+                    return fi.ptr(g.imap[a["v"]].ops[0])[0] == ("arg", vk)
+                for x in incs:
+                    if why: break
+                    if x.op == "add":
+                        if not (x.ops[1]["k"] == "int" and int(x.ops[1]["v"]) == 1): why = "the count moves by something other than one"; break
+                        guarded = False
+                        for d in g.dom_chain(x.block.id):
+                            blk = g.bmap[d]
+                            if len(blk.preds) != 1 or blk.id not in body: continue
+                            t = blk.preds[0].term
+                            if t.op == "br" and len(t.ops) == 3 and t.ops[0]["k"] == "inst" and t.ops[2]["v"] == blk.id and t.ops[1]["v"] != blk.id and elem_above(g.imap[t.ops[0]["v"]]): guarded = True
+                        if not guarded: why = "an increment is not governed by `values[i] > thresholdValue` on an element of the input"
+                    else:
+                        c0 = strip_casts(g, x.ops[0])
+                        if not (c0["k"] == "inst" and elem_above(g.imap[c0["v"]])): why = "an increment is not governed by `values[i] > thresholdValue` on an element of the input"
+                if not incs and not why: why = "the count is never incremented"
+        run.check(why is None, "M11-exception-count-is-counted", {"fn": g.name, "at": loc(st)},
+                  Finding("M11-exception-count-not-counted", g.name, "exceptionCount", "store",
+                          "the value stored into exceptionCount at %s is not a count of the input elements above the threshold value: %s. varintPFOREncode writes that many exception records but fills one per element above the threshold, so the two must be the same count (ties with the percentile value make a position-derived figure larger: unwritten records are emitted)" % (loc(st), why), loc=loc(st)))
+    return n
 
 
 def effective_stores(mod, w, eng, fn, fi, k, t):
